@@ -8,7 +8,10 @@ package compiler
 // package-level IR constants / runtime function handles: assigned once during set-up, never afterwards
 immutable g:compiler.zero g:compiler.ddp_runtime_error_irfun g:compiler.ddpint
 // the AST is not rewritten during code generation
-immutable ast.BinaryExpr ast.Indexing
+immutable ast.BinaryExpr ast.Indexing ast.UnaryExpr ast.TernaryExpr
+// the compiler's type descriptors and IR constants are created once during set-up
+immutable compiler.compiler.ddpinttyp compiler.compiler.ddpfloattyp compiler.compiler.ddpbytetyp compiler.compiler.ddpbooltyp compiler.compiler.ddpchartyp
+immutable g:compiler.zerof g:compiler.all_ones g:compiler.all_ones8 g:compiler.ddpfloat g:compiler.ddpbyte g:compiler.ddpbool g:compiler.ddpchar g:compiler.zero8
 
 // the only function whose call means "Laufzeitfehler"
 axiom rtfn_is_the_runtime_error_function: forall v value.Value :: ir.isRuntimeErrorFn(v) <==> v == ddp_runtime_error_irfun
@@ -93,4 +96,56 @@ func (*compiler).VisitBinaryExpr [C06]
   ensures [C06] reached(L2) && bvsge(fieldDen(lhs, list_len_field_index), bv64(0)) ==>
             (c.cbb.$guard == (at(L2, c.cbb.$guard) &&
                 (bvsle(bv64(1), bvadd(ir.den(index), bv64(1))) && bvsle(bvadd(ir.den(index), bv64(1)), fieldDen(lhs, list_len_field_index)))))
+
+// ================= C02: every operator application that type-checks has a consistent lowering =================
+// type classes: 1 Zahl, 2 Kommazahl, 3 Byte, 4 Wahrheitswert, 5 Buchstabe (IR: i64, double, i8, i1, i32)
+spec numericCls(k int) bool := k == 1 || k == 2 || k == 3
+spec irOfClass(k int) int := k
+// the compiler's descriptor object for a class
+spec descr(c *compiler, k int) ddpIrType :=
+  k == 1 ? box(c.ddpinttyp) : (k == 2 ? box(c.ddpfloattyp) : (k == 3 ? box(c.ddpbytetyp) : (k == 4 ? box(c.ddpbooltyp) : box(c.ddpchartyp))))
+// class the type checker assigned to an expression (its typed AST annotation)
+spec tyClassOf(e ast.Expression) int
+
+// ASSUMED set-up facts (established by the compiler's constructor, not re-proved here): the five primitive
+// descriptors are distinct objects and the IR constants/types have the obvious IR type classes
+spec wfCompiler(c *compiler) bool :=
+     c != nil && c.ddpinttyp != nil && c.ddpfloattyp != nil && c.ddpbytetyp != nil && c.ddpbooltyp != nil && c.ddpchartyp != nil
+  && c.ddpinttyp != c.ddpfloattyp && c.ddpinttyp != c.ddpbytetyp && c.ddpinttyp != c.ddpbooltyp && c.ddpinttyp != c.ddpchartyp
+  && c.ddpfloattyp != c.ddpbytetyp && c.ddpfloattyp != c.ddpbooltyp && c.ddpfloattyp != c.ddpchartyp
+  && c.ddpbytetyp != c.ddpbooltyp && c.ddpbytetyp != c.ddpchartyp && c.ddpbooltyp != c.ddpchartyp
+  && ir.irtyOf(ddpint) == 1 && ir.irtyOf(ddpfloat) == 2 && ir.irtyOf(ddpbyte) == 3 && ir.irtyOf(ddpbool) == 4 && ir.irtyOf(ddpchar) == 5
+  && ir.irty(zero) == 1 && ir.isIntConst(zero) && ir.irty(zerof) == 2 && !ir.isIntConst(zerof)
+  && ir.irty(all_ones) == 1 && ir.isIntConst(all_ones) && ir.irty(all_ones8) == 3 && ir.isIntConst(all_ones8)
+
+// INDUCTION HYPOTHESIS for sub-expressions (assumed for the children, proved below for the operators under contract):
+// evaluating an expression of a primitive class yields that class's descriptor and an IR value of that class's IR type
+func (*compiler).evaluate
+  trusted
+  modifies *
+  ensures 1 <= tyClassOf(expr) && tyClassOf(expr) <= 5 ==>
+            result1 == descr(c, tyClassOf(expr)) && ir.irty(result0) == irOfClass(tyClassOf(expr)) && !ir.isIntConst(result0)
+
+func (*compiler).commentNode
+  trusted
+  modifies nothing
+
+func (*compiler).createTernary
+  inline
+
+// --- unary operators (language rules: Betrag/Negation on numbers, a Byte operand gives a Zahl; nicht on Wahrheitswert;
+//     logisch nicht on Zahl/Byte) ---
+spec admissibleUn(op ast.UnaryOperator, k int) bool :=
+     ((op == ast.UN_ABS || op == ast.UN_NEGATE) && numericCls(k))
+  || (op == ast.UN_NOT && k == 4)
+  || (op == ast.UN_LOGIC_NOT && (k == 1 || k == 3))
+spec resultUn(op ast.UnaryOperator, k int) int :=
+  (op == ast.UN_ABS || op == ast.UN_NEGATE) ? (k == 3 ? 1 : k) : (op == ast.UN_NOT ? 4 : k)
+
+func (*compiler).VisitUnaryExpr [C02]
+  requires e != nil && e.OverloadedBy == nil && admissibleUn(e.Operator, tyClassOf(e.Rhs))
+  assume wfCompiler(c)
+  nopanic
+  ensures c.latestReturnType == descr(c, resultUn(e.Operator, tyClassOf(e.Rhs)))
+  ensures ir.irty(c.latestReturn) == irOfClass(resultUn(e.Operator, tyClassOf(e.Rhs)))
 @*/
